@@ -493,7 +493,7 @@ Definition unpickle (o : ctor_oracle) (t : term) : wres :=
   match t with
   | IRI s => WTerm (IRI s)
   | BNd s => WTerm (BNd s)
-  | Var s => mk_var s
+  | Var s => mk_var (63 :: s)                 (* __reduce__ hands the constructor a '?' to strip (repair of F7n) *)
   | Lit lex dt lang => mk_literal o false lex lang dt
   end.
 
@@ -563,7 +563,7 @@ Definition from_n3 (o : ctor_oracle) (s : str) : wres :=
       end
   | 95 :: 58 :: r => WTerm (BNd r)
   | c :: r =>
-      if N.eqb c 63 then mk_var r else WAny          (* the '?name' branch (fix for F7d) *)
+      if N.eqb c 63 then mk_var s else WAny          (* the '?name' branch: Variable(s), which strips the '?' *)
   end.
 
 (* ------------------------------------------------------------------ *)
@@ -852,8 +852,15 @@ Definition sorted_ok (c : case) (o : obs) : bool :=
     end
   else true.
 
+(* every term has a hash (no wildcard is accepted from an implementation) *)
+Definition hash_present (o : obs) : bool :=
+  forallb (fun h => match h with Some _ => true | None => false end) (o_hash o).
+(* the hash oracle of a case covers the strings of its terms *)
+Definition hwf (c : case) : bool :=
+  forallb (fun t => match hash_of (c_hash c) t with Some _ => true | None => false end) (c_terms c).
+
 Definition spec_ok (c : case) (o : obs) : bool :=
-  spec_base c o && family_ok (c_terms c) (o_lt o) && ne_ok c o && sorted_ok c o && ops_ok c o.
+  spec_base c o && family_ok (c_terms c) (o_lt o) && ne_ok c o && sorted_ok c o && ops_ok c o && hash_present o.
 
 (* ================================================================== *)
 (* Suite "pickler": a sequence of terms through ONE rdflib.store.NodePickler (a fresh one, then Store().node_pickler):
@@ -897,12 +904,25 @@ Definition n3_lex (lex : str) (dt : option str) : str :=
   | None => lex
   end.
 
+(* known finding of the text suite, F7a: from_n3 (like every parser) builds literals through the normalising
+   constructor, so a literal whose n3-visible lexical form the constructor does not leave alone (built with
+   normalize=False, or respelt by n3()) does not read back as the same term *)
+Definition tkf (c : tcase) : N :=
+  match t_term c with
+  | Lit lex dt _ =>
+      match ctor_lex (t_orc c) (n3_lex lex dt) dt with
+      | Some l => if str_eqb l lex then 0 else 1
+      | None => 0
+      end
+  | _ => 0
+  end.
+
 Definition tmodel_obs (c : tcase) : tobs :=
   let t := t_term c in
   {| t_n3 := n3 t;
      t_from := match n3 t with Some s => from_n3 (t_orc c) s | None => WRaise end;
      t_pickle := unpickle (t_orc c) t;
-     t_flags := [Some true; Some true; Some true] |}.
+     t_flags := [Some true; (if N.eqb (tkf c) 0 then Some true else None); (if N.eqb (tkf c) 0 then Some true else None)] |}.
 
 Definition tobs_eqb (m i : tobs) : bool :=
   ostr_eqb (t_n3 m) (t_n3 i) && wres_eqb (t_from m) (t_from i) && wres_eqb (t_pickle m) (t_pickle i)
@@ -911,31 +931,15 @@ Definition tobs_eqb (m i : tobs) : bool :=
 Definition same_as (t : term) (w : wres) : bool :=
   match w with WTerm t' => term_same t t' | WAny => true | WRaise => false end.
 
-(* the term the default constructor builds from t's lexical form, language and datatype: t itself unless t was
-   built with normalize=False.  Every reader of text (from_n3, the Turtle parser) builds literals through that
-   constructor, so THIS is "the same term" for the text round trips.  WAny: the oracle does not know. *)
-Definition normal_form (o : ctor_oracle) (t : term) : wres :=
-  match t with
-  | Lit lex dt lang =>
-      match ctor_lex o lex dt with
-      | Some lex' => WTerm (Lit lex' dt lang)
-      | None => WAny
-      end
-  | _ => WTerm t
-  end.
-
-Definition same_wres (want got : wres) : bool :=
-  match want, got with
-  | WAny, _ | _, WAny => true
-  | WTerm a, WTerm b => term_same a b
-  | _, _ => false
-  end.
+(* what was read back must be a term, and the same one (WAny, the model's "do not know", is never accepted) *)
+Definition same_strict (t : term) (w : wres) : bool :=
+  match w with WTerm t' => term_same t t' | _ => false end.
 
 Definition tspec_ok (c : tcase) (o : tobs) : bool :=
   let t := t_term c in
-  same_as t (t_pickle o)                                  (* pickling: exactly the same term *)
+  same_strict t (t_pickle o)                              (* pickling: the same term *)
   && match t_n3 o with
-     | Some _ => same_wres (normal_form (t_orc c) t) (t_from o)
+     | Some _ => same_strict t (t_from o)                 (* from_n3(t.n3()): the same term *)
      | None => match t with IRI s => negb (valid_uri s) | _ => false end   (* only an IRI n3 cannot write may raise *)
      end
   && forallb (fun f => match f with Some false => false | _ => true end) (t_flags o).
@@ -946,7 +950,7 @@ Definition tag_chars (s : str) : bool := forallb (fun c => is_alnum c || N.eqb c
 Definition wf_term (t : term) : bool :=
   match t with
   | IRI s | BNd s => cp_ok s
-  | Var s => cp_ok s && match s with [] => false | c :: _ => negb (N.eqb c 63) end
+  | Var s => cp_ok s
   | Lit lex dt lang =>
       cp_ok lex &&
       match dt, lang with
@@ -966,18 +970,15 @@ Definition respelled (lex : str) (dt : option str) : bool :=
   | Some d => smem d infnan_types && match float_class lex with FOther => false | _ => true end
   | None => false
   end.
+(* well-formed text case: a well-formed term; a literal whose INF/NaN spelling n3() changes has a lexical form that
+   needs no escape (proof restriction, not a restriction of the check); the constructor oracle covers the literal *)
 Definition twf (c : tcase) : bool :=
   let t := t_term c in
   wf_term t &&
   match t with
   | Lit lex dt _ =>
-      if respelled lex dt then
-        forallb plain_char lex
-        && match ctor_lex (t_orc c) lex dt, ctor_lex (t_orc c) (n3_lex lex dt) dt with
-           | Some a, Some b => str_eqb a b
-           | None, _ => true
-           | _, None => true
-           end
-      else true
+      (if respelled lex dt then forallb plain_char lex else true)
+      && match ctor_lex (t_orc c) (n3_lex lex dt) dt with Some _ => true | None => false end
   | _ => true
   end.
+
